@@ -156,6 +156,57 @@ def symstack_sources():
     return out
 
 
+# ------------------------------------------------------------------ section-local declarations (E14)
+def secdecl_source(rng):
+    """Sections with FORWARD / PUBLIC / GLOBAL declarations in every order relative to each other and to the definitions:
+    each kind keeps a list of names still to be defined, walked and pruned at every label and at ENDSECTION."""
+    L = ["\tcpu z80"]
+    cnt = [0]
+
+    def section(depth):
+        cnt[0] += 1
+        sn = "s%d" % cnt[0]
+        L.append("\tsection %s" % sn)
+        names = rng.sample(["a", "b", "c", "d", "e", "f", "g", "h"], rng.randint(1, 6))
+        stmts = []
+        for nm in names:
+            kind = rng.choice(["forward", "public", "global", "public", "forward"])
+            d = "\t%s %s" % (kind, nm)
+            if kind == "public" and depth and rng.chance(0.3):
+                d += ":parent"
+            stmts.append(d)
+            if rng.chance(0.15):
+                stmts.append("\t%s %s" % (rng.choice(["forward", "public", "global"]), nm))  # declared twice / as two kinds
+        if rng.chance(0.4):
+            stmts = ["\t%s %s" % (k, ",".join(x.split()[1] for x in stmts if x.split()[0] == k)) for k in ("forward", "public", "global")
+                     if any(x.split()[0] == k for x in stmts)]
+            rng.shuffle(stmts)
+        defs = []
+        for nm in names:
+            r = rng.below(10)
+            if r < 7:
+                defs.append(rng.choice(["%s:\tnop", "%s\tequ 5", "%s:", "%s\tset 3"]) % nm)
+            elif r == 7:
+                defs.append("\tjp %s" % nm)  # used, never defined
+        rng.shuffle(defs)
+        body = stmts + defs
+        if rng.chance(0.3):
+            rng.shuffle(body)  # definitions in front of their declarations
+        for b in body:
+            L.append(b)
+            if depth < 2 and rng.chance(0.12):
+                section(depth + 1)
+        r = rng.below(12)
+        if r == 0:
+            return  # section left open
+        L.append("\tendsection" + (" " + sn if r < 4 else " wrong" if r == 4 else ""))
+    for _ in range(rng.randint(1, 4)):
+        section(0)
+        if rng.chance(0.3):
+            L.append("\tjp %s" % rng.choice(["a", "b", "s1_c", "s2_a"]))
+    return "\n".join(L) + "\n"
+
+
 # ------------------------------------------------------------------ line lengths around buffer capacities (E12)
 LL_LENGTHS = list(range(1010, 1032)) + list(range(1140, 1160)) + list(range(2040, 2052)) + [254, 255, 256, 257, 4095, 4096, 4097]
 LL_SHAPES = ["plain", "macro", "irp", "rept", "macro-tabs", "call", "comment", "string"]
@@ -565,6 +616,9 @@ def plan(tier, seed):
             cases.append({"gen": "symfault", "test": t.name, "sample": 20, "seed": mix(seed, "symf", t.name)})
     # E13 symbol stack x kinds of value
     cases.append({"gen": "symstack"})
+    # E14 section-local declarations
+    for k in range(12 if thorough else 2):
+        cases.append({"gen": "secdecl", "n": 250 if thorough else 150, "seed": mix(seed, "secdecl", k)})
     # E12 one line of critical length per program, in eight contexts
     for sh in LL_SHAPES:
         cases.append({"gen": "longline", "shape": sh})
@@ -1183,6 +1237,12 @@ def _run_case(sim, case, acc):
         for i, src in enumerate(srcs):
             run_one(sim, acc, "asl", sc_asl(src, cpu=10), "E13 symbol stack %d" % i, "symbol-stack")
         acc.sample = {"space": "E13", "programs": len(srcs)}
+    elif g == "secdecl":
+        rng = Rng(case["seed"])
+        for i in range(case["n"]):
+            src = secdecl_source(rng)
+            run_one(sim, acc, "asl", sc_asl(src, ["-L"] if i % 4 == 0 else [], cpu=10), "E14 section declarations %d" % i, "section-declarations")
+        acc.sample = {"space": "E14", "programs": case["n"]}
     elif g == "longline":
         for n in LL_LENGTHS:
             src = longline_source(n, case["shape"])
